@@ -59,6 +59,12 @@ def generate(seed, index, tier):
         doc["tag"] = "g"
         for a in ("width", "height", "viewBox", "preserveAspectRatio", "x", "y"):
             doc["attrs"].pop(a, None)
+    if index % 41 == 7:
+        # the document itself asks not to be rendered: still a document
+        if ch.coin(0.5):
+            doc["attrs"]["display"] = "none"
+        else:
+            doc["attrs"]["style"] = "display:none"
     st = index % 29  # prime: every bias meets every other index-derived stratum (steps, poison, heavy, extra kinds)
     case = {"faults": []}
     if st == 28:
